@@ -109,6 +109,68 @@ class PrinterStrings:
         return None, None
 
 
+def partial_projection_rule(cx, rep, rid, files=("print/printer.rs",)):
+    """The printer rebuilds validators from parts of IR nodes (object shapes for discriminated unions, hoisted
+    constants).  A pattern over a struct-like RuntypeKind variant that takes some fields and ignores the others (`..`,
+    `_`, or a binding that is never used) is a projection that silently drops a constraint: the rebuilt validator
+    accepts / rejects other values than the node it was taken from.  Accepted: every field bound and used (in the
+    guard or the body), or constrained by a refutable sub-pattern; patterns that bind nothing are kind tests."""
+    F = cx.rs
+    rk = F.adts.get("ast::runtype::RuntypeKind")
+    if rk is None:
+        rep.anchor_missing(rid, "RuntypeKind")
+        return
+    vfields = {v["name"]: [fl["name"] for fl in v["fields"]] for v in rk["variants"]}
+    n = 0
+    for g in sorted(F.hir):
+        f = F.fns.get(g)
+        if f is None or not (f.file or "").endswith(tuple(files)):
+            continue
+        tree = F.hir[g]
+        scopes = []   # (pattern node, [nodes in which its bindings may be used])
+        for m in walk(tree["body"]):
+            if m["k"] == "Match":
+                for a in m["arms"]:
+                    scopes.append((a["pat"], [a.get("guard"), a["body"]]))
+            elif m["k"] == "If" and m["cond"]["k"] == "Let":
+                scopes.append((m["cond"]["pat"], [m["then"]]))
+            elif m["k"] == "LetStmt":
+                scopes.append((m["pat"], [tree["body"]]))
+        for pat, uses in scopes:
+            for x in walk(pat):
+                if x["k"] != "P.Struct" or not (x.get("def") or "").startswith("ast::runtype::RuntypeKind::"):
+                    continue
+                var = x["def"].rsplit("::", 1)[-1]
+                declared = vfields.get(var) or []
+                if len(declared) < 2 or any(d.isdigit() for d in declared):
+                    continue
+                used_lids = {y.get("lid") for u in uses if u is not None for y in walk(u) if y["k"] == "Path" and y.get("res") == "local"}
+                taken, ignored = [], []
+                by_name = {fl["name"]: fl["pat"] for fl in x["fields"]}
+                for fld in declared:
+                    sp = by_name.get(fld)
+                    if sp is None or sp["k"] == "P.Wild":
+                        ignored.append(fld)
+                        continue
+                    binds = [b for b in walk(sp) if b["k"] == "P.Binding"]
+                    refutable = any(b["k"] in ("P.Struct", "P.TupleStruct", "P.Lit", "P.Expr", "P.Path", "P.Range") for b in walk(sp))
+                    if binds and any(b.get("lid") in used_lids for b in binds):
+                        taken.append(fld)
+                    elif refutable:
+                        taken.append(fld)      # constrained by the pattern itself
+                    elif binds:
+                        ignored.append(fld)    # bound but never used
+                    else:
+                        ignored.append(fld)
+                if not taken:
+                    continue
+                n += 1
+                rep.ob(rid, "%s/%s" % (f.id.rsplit("::", 1)[-1], var), not ignored,
+                       "%s takes %s of RuntypeKind::%s but ignores %s: what it rebuilds from the node has lost that constraint (e.g. an index signature), so the emitted validator differs from the declared type" % (
+                           f.id, taken, var, ignored), "%s:%s" % (f.file, x["line"]), sample={"fn": f.id, "variant": var, "fields_used": taken})
+    rep.floor(rid, "projections of struct-like RuntypeKind variants in the printer", n, 3)
+
+
 def run(cx, rep):
     F = cx.rs
     fam = ts_common.Family(cx)
@@ -306,6 +368,9 @@ def run(cx, rep):
         for n, ch, rp in chain:
             if ch:
                 rep.ob("C01.3", "replacement/%s" % ch, rp == "\\" + ch, "escape of %r is %r, expected %r" % (ch, rp, "\\" + ch), "%s:%s" % (F.fns[er[0]].file, n["line"]))
+    # ---------------------------------------------------------------- C01.7
+    rep.rule("C01.7", "the printer takes IR nodes apart without dropping a field")
+    partial_projection_rule(cx, rep, "C01.7")
     # ---------------------------------------------------------------- C01.4
     rep.rule("C01.4", "every runtime class implements the whole Runtype interface")
     rep.floor("C01.4", "interface methods", len(fam.iface_methods), 8)
